@@ -37,6 +37,8 @@ CHECKS = {
    text="9 (12) call variants x node state {down, silent, window full, sender busy behind an earlier message with a never-ending context} x send buffer x {Canceled, DeadlineExceeded} x {already ended, ended at any instant}; at the quiescent state after the context ended - no timer fired, no handler returned - the call must have returned / its future or correctable be done, and any reported error must match the context's error under errors.Is. A stuck caller is a deadlock state of the explored system, found deterministically."),
  "C09": dict(cat="model_checking", ref="5.9", tech="stateless model checking of workloads with free-running cancel / fault / timer threads, followed by a probe call; deadlock (wedge) detection at quiescence",
    text="Workloads of one or two calls (correctable streams with 1..3 server replies and early / never / slow quorum functions, cancelled quorum calls, futures, correctables, RPCs, multicasts; concurrent and sequential) with cancel threads, an optional stream reset or crash+restart and a timer-firing thread, all placed by the explorer at every instant within the deviation bound; afterwards all back-off timers are fired and a probe RPC with a fresh context must be delivered and answered with its own stamped reply, with no library thread left blocked on a lock."),
+ "C12": dict(cat="fault_enumeration", ref="5.12", tech="stateless model checking with Manager.Close as free-running thread(s) placed at every instant within the deviation bound relative to in-flight calls (crash-point style enumeration); thread-exit and deadlock oracles at quiescence",
+   text="9 in-flight call variants with never-ending contexts (and pairs) x send buffer {0,1,2} x node state {connected, down, in back-off} x handler answers / never answers x one or two concurrent Close calls scheduled at every point between visible operations within the deviation bound, then a post-Close call of rotating type and a further Close; Close on a WithNoConnect manager. Oracle: no panic, every Close returns, every in-flight and post-Close call returns (error where the API has one), no client library goroutine alive and every connection closed at the end."),
 }
 
 NOT_YET = {}
